@@ -355,10 +355,22 @@ func c03GateArgs(p *Prog, ib *inbound, r *Report) {
 func substParam(v ssa.Value) ssa.Value {
 	for i := 0; i < 4; i++ {
 		par, ok := v.(*ssa.Parameter)
-		if !ok || pathSubst == nil {
+		if !ok {
 			return v
 		}
-		a := pathSubst(par)
+		var a ssa.Value
+		if pathSubst != nil {
+			a = pathSubst(par)
+		}
+		if a == nil && belowScopeRoot(par.Parent()) {
+			if s := curProg.HelperSite(par.Parent()); s != nil {
+				for k, q := range par.Parent().Params {
+					if q == par && k < len(s.Common().Args) {
+						a = s.Common().Args[k]
+					}
+				}
+			}
+		}
 		if a == nil {
 			return v
 		}
